@@ -31,6 +31,8 @@ type V struct {
 	strOrder bool
 	ufRange  map[string]bool
 	heapVers map[string]int
+	curGroup *OblGroup
+	groups   []*OblGroup
 	axioms   []string
 	closures map[string]*closureInfo
 
@@ -111,6 +113,18 @@ func (v *V) sites() map[string][]token.Pos {
 }
 
 func (v *V) addObl(st *State, name, kind, goal string, pos token.Pos, desc, expect string) *Obl {
+	if expect == "unsat" && v.curGroup == nil && (strings.HasPrefix(goal, "(=> ") || strings.HasPrefix(goal, "(and ")) {
+		// the conjuncts are proved separately, but the whole goal is tried first as one query
+		pc := append([]string(nil), st.pc...)
+		pc = append(pc, st.guards...)
+		v.curGroup = &OblGroup{Whole: &Obl{Name: name, Kind: kind, PC: pc, Goal: goal, Desc: desc, NDecls: len(v.d.lines), Expect: expect}}
+		defer func() {
+			if g := v.curGroup; g != nil && len(g.Members) > 1 {
+				v.groups = append(v.groups, g)
+			}
+			v.curGroup = nil
+		}()
+	}
 	if expect == "unsat" && strings.HasPrefix(goal, "(=> ") {
 		if g, ok := parseSx(goal); ok && len(g.kids) == 3 && g.kids[2].head() == "and" && len(g.kids[2].kids) > 2 {
 			var last *Obl
@@ -138,7 +152,16 @@ func (v *V) addObl(st *State, name, kind, goal string, pos token.Pos, desc, expe
 		o.Pos = v.prog.fset.Position(pos)
 	}
 	v.obls = append(v.obls, o)
+	if v.curGroup != nil {
+		v.curGroup.Members = append(v.curGroup.Members, o)
+	}
 	return o
+}
+
+// OblGroup: the conjuncts split off one goal.
+type OblGroup struct {
+	Whole   *Obl
+	Members []*Obl
 }
 
 // ---------- spec environments ----------
@@ -1177,7 +1200,8 @@ func (v *V) assignGhost(se *Env, target string, val Val) {
 		}
 		comp, sort, gt := v.ghostFieldComp(stt, gf)
 		nv := v.coerce(se, val, gt)
-		if inv := v.typeInvNoAlloc(Val{T: gt, S: nv.S}); len(inv) > 0 && v.dry == 0 {
+		if _, isInt := v.d.intComps[comp]; isInt && v.dry == 0 {
+			inv := v.typeInvNoAlloc(Val{T: gt, S: nv.S})
 			// ghost fields keep within their declared type's range (the range is assumed of fresh heap versions)
 			v.addObl(st, fmt.Sprintf("%s/ghost-range#%s", v.fi.name(), target), "ghost-range", and(inv...), token.NoPos, "value assigned to ghost field "+target+" is within its type's range", "unsat")
 		}
